@@ -15,7 +15,7 @@ NAMES = ['x', 'y']
 
 
 class Conc(object):
-    def __init__(self, p, variant=0, taint=False, names=None, imports=False, heavy=()):
+    def __init__(self, p, variant=0, taint=False, names=None, imports=False, heavy=(), listcomp=False):
         self.p = p
         self.par, self.kind, self.uses = p['par'], p['kind'], p['uses']
         self.n = len(self.par)
@@ -32,6 +32,7 @@ class Conc(object):
         self.taint = taint
         self.imports = imports      # stores in statement scopes are spelled `import name` (an alias-less import is expensive to rename)
         self.import_tags = []
+        self.listcomp = listcomp    # comprehensions are written as list comprehensions (inlined on CPython >= 3.12, PEP 709) instead of generator expressions
         self.heavy = set(heavy)     # names whose loads are written three times (changes the order in which the assigner processes bindings)
         self.src = '\n'.join(self.body(1, 0)) + '\n'
 
@@ -64,6 +65,8 @@ class Conc(object):
             its = [nm for nm in self.names if 'store' in self.u(s, nm)]
             fors = ' '.join('for %s in [%s]' % (self.cn[t], self.T(s, t, 'store')) for t in its) or 'for emit.k in [0]'
             items = self.expr_items(s)
+            if self.listcomp:
+                return '[(' + ', '.join(items) + ',) ' + fors + ']'
             return 'list((' + ', '.join(items) + ',) ' + fors + ')'
         if k == 'l':
             params = [nm for nm in self.names if 'param' in self.u(s, nm)]
@@ -81,13 +84,13 @@ class Conc(object):
         out = []
         if s != 1:
             out.append(pad + 'emit(%d, 0)' % self.marker(s))
-        for nm in self.names:
-            if 'gdecl' in self.u(s, nm):
-                out.append(pad + 'global ' + self.cn[nm])
-                self.decl.append({'scope': s, 'name': nm, 'how': 'gdecl'})
-            if 'ndecl' in self.u(s, nm):
-                out.append(pad + 'nonlocal ' + self.cn[nm])
-                self.decl.append({'scope': s, 'name': nm, 'how': 'ndecl'})
+        for how, kw in (('gdecl', 'global'), ('ndecl', 'nonlocal')):
+            declared = [nm for nm in self.names if how in self.u(s, nm)]
+            if declared:
+                # one statement for all names declared this way (a statement that names two bindings)
+                out.append(pad + kw + ' ' + ', '.join(self.cn[nm] for nm in declared))
+                for nm in declared:
+                    self.decl.append({'scope': s, 'name': nm, 'how': how})
 
         def loads():
             r = []
@@ -258,7 +261,7 @@ def observe(job):
     """job: {id, p, variant, opts: {rl, rg, taint, presL, presG}}.  Returns the Trace_Rename observation record (or a skip marker)."""
     import python_minifier
     o = job['opts']
-    conc = Conc(job['p'], variant=job.get('variant', 0), taint=o.get('taint', False), names=job.get('names'), imports=job.get('imports', False), heavy=job.get('heavy', ()))
+    conc = Conc(job['p'], variant=job.get('variant', 0), taint=o.get('taint', False), names=job.get('names'), imports=job.get('imports', False), heavy=job.get('heavy', ()), listcomp=job.get('listcomp', False))
     src = conc.src
     try:
         compile(src, 'in', 'exec')
